@@ -107,3 +107,7 @@ mod tests {
         Grammar::parse(bytes, 0).expect("Failed to create grammar")
     }
 }
+
+// verification hook: harness text lives outside the repository (see MANIFEST.hooks)
+#[cfg(any(kani, sudachi_verif))]
+include!(concat!(env!("SUDACHI_VERIF_DIR"), "/plugin__connect_cost__inhibit_connection.rs"));
